@@ -71,17 +71,19 @@ type Thread struct {
 	pobj    int
 	enabled func() bool
 	// channel rendezvous
-	cases    []SelCase
-	hasDef   bool
-	matched  bool
-	waiting  bool
-	selIdx   int
-	selVal   any
-	selOK    bool
-	pendSeq  int
-	hash     uint64
-	Name     string
-	isDaemon bool
+	cases     []SelCase
+	hasDef    bool
+	matched   bool
+	waiting   bool
+	inQuiesce bool
+	Where     string
+	selIdx    int
+	selVal    any
+	selOK     bool
+	pendSeq   int
+	hash      uint64
+	Name      string
+	isDaemon  bool
 }
 
 // Exec is one execution.
@@ -97,6 +99,8 @@ type Exec struct {
 	aborting bool
 	doneCh   chan struct{}
 	finished bool
+	stackReq bool
+	stackAck chan struct{}
 
 	PanicVal   any
 	PanicStack string
@@ -116,8 +120,13 @@ type Exec struct {
 	timers    []*vtimer
 	timerSeq  int
 	EnvBudget int // voluntary ENV firings allowed
-	envUsed   int
-	EnvFired  int
+	// BlockSwitchCost is the cost of not taking the default thread when the running
+	// thread is blocked (0 = preemption bounding, 1 = delay bounding); SelectCost the
+	// cost of a non-default ready select case.
+	BlockSwitchCost int8
+	SelectCost      int8
+	envUsed         int
+	EnvFired        int
 
 	// state cache hook; returns true if the state has been seen (prune)
 	Visit func(e *Exec, key uint64, cost int) bool
@@ -149,11 +158,12 @@ func (e ErrWouldBlock) Error() string { return "vrt: sequential deadlock: " + e.
 
 // Config for Run.
 type Config struct {
-	Prefix    []int
-	Horizon   int
-	EnvBudget int
-	Visit     func(e *Exec, key uint64, cost int) bool
-	Trace     bool
+	Prefix                      []int
+	Horizon                     int
+	EnvBudget                   int
+	Visit                       func(e *Exec, key uint64, cost int) bool
+	Trace                       bool
+	BlockSwitchCost, SelectCost int8
 }
 
 // Run executes main as thread 0 under the controlled scheduler.
@@ -163,16 +173,19 @@ func Run(cfg Config, main func()) *Exec {
 	}
 	genCounter++
 	e := &Exec{
-		Gen:       genCounter,
-		Prefix:    cfg.Prefix,
-		HorizonN:  cfg.Horizon,
-		doneCh:    make(chan struct{}, 1),
-		chans:     map[uintptr]*chanState{},
-		EnvBudget: cfg.EnvBudget,
-		Visit:     cfg.Visit,
-		Data:      map[string]any{},
-		objHash:   map[int]uint64{},
-		TraceOn:   cfg.Trace,
+		Gen:             genCounter,
+		Prefix:          cfg.Prefix,
+		HorizonN:        cfg.Horizon,
+		doneCh:          make(chan struct{}, 1),
+		stackAck:        make(chan struct{}),
+		chans:           map[uintptr]*chanState{},
+		EnvBudget:       cfg.EnvBudget,
+		Visit:           cfg.Visit,
+		Data:            map[string]any{},
+		objHash:         map[int]uint64{},
+		TraceOn:         cfg.Trace,
+		BlockSwitchCost: cfg.BlockSwitchCost,
+		SelectCost:      cfg.SelectCost,
 	}
 	if e.HorizonN == 0 {
 		e.HorizonN = 20000
@@ -268,10 +281,55 @@ func (e *Exec) finish(o Outcome) {
 }
 
 func (t *Thread) park(e *Exec) {
-	<-t.wake
+	for {
+		<-t.wake
+		if e.stackReq {
+			t.Where = repoFrame()
+			e.stackAck <- struct{}{}
+			continue
+		}
+		break
+	}
 	if e.aborting {
 		runtime.Goexit()
 	}
+}
+
+// repoFrame returns the innermost function of hive.go on the calling goroutine's stack.
+func repoFrame() string {
+	pcs := make([]uintptr, 64)
+	n := runtime.Callers(2, pcs)
+	frames := runtime.CallersFrames(pcs[:n])
+	for {
+		f, more := frames.Next()
+		if strings.HasPrefix(f.Function, "github.com/iotaledger/hive.go/") {
+			fn := strings.TrimPrefix(f.Function, "github.com/iotaledger/hive.go/")
+			if i := strings.LastIndex(fn, "/"); i >= 0 {
+				fn = fn[i+1:]
+			}
+			return fn
+		}
+		if !more {
+			return "harness"
+		}
+	}
+}
+
+// collectWhere asks every parked, unfinished thread where it is blocked.
+func (e *Exec) collectWhere(self *Thread) {
+	e.stackReq = true
+	for _, o := range e.threads {
+		if o.done || !o.started {
+			continue
+		}
+		if o == self {
+			o.Where = repoFrame()
+			continue
+		}
+		o.wake <- struct{}{}
+		<-e.stackAck
+	}
+	e.stackReq = false
 }
 
 // Aborting reports whether the current execution is being torn down.
@@ -344,10 +402,11 @@ func (e *Exec) reschedule(t *Thread) {
 			n++
 		}
 		if n == 0 {
+			e.collectWhere(t)
 			e.Blocked = e.Blocked[:0]
 			for _, o := range e.threads {
 				if !o.done {
-					e.Blocked = append(e.Blocked, fmt.Sprintf("T%d@%s#%d", o.ID, o.pkind, o.pobj))
+					e.Blocked = append(e.Blocked, fmt.Sprintf("T%d:%s@%s#%d", o.ID, o.pkind, o.Where, o.pobj))
 				}
 			}
 			e.finish(Deadlock)
@@ -375,8 +434,12 @@ func (e *Exec) reschedule(t *Thread) {
 			costs := make([]int8, n)
 			var sig uint64 = 1469598103934665603
 			for i, o := range opts {
-				if i > 0 && runningEnabled {
-					costs[i] = 1
+				if i > 0 {
+					if runningEnabled {
+						costs[i] = 1
+					} else {
+						costs[i] = e.BlockSwitchCost
+					}
 				}
 				sig = mix(sig, uint64(o.ID)<<32|uint64(hashStr(o.pkind))&0xffffffff)
 			}
@@ -657,4 +720,28 @@ func Par(fs ...func()) {
 	for _, h := range hs {
 		h.Join()
 	}
+}
+
+// Quiesce blocks the calling thread until no other thread can run (forced ENV
+// firings included), i.e. until the rest of the system has come to rest.
+func Quiesce() {
+	e := E
+	if e == nil {
+		return
+	}
+	t := e.cur
+	Point("quiesce", -1, func() bool {
+		if t.inQuiesce {
+			return false
+		}
+		t.inQuiesce = true
+		defer func() { t.inQuiesce = false }()
+		for _, o := range e.threads {
+			if o != t && o.isEnabled() {
+				return false
+			}
+		}
+		return len(e.timers) == 0
+	})
+	t.hash = mix(t.hash, e.stateKey(nil))
 }
